@@ -531,8 +531,8 @@ pub fn random_abstract(rng: &mut Rng, size: usize, break_links: bool) -> Value {
     let days: Vec<i64> = (0..4).map(|_| next()).collect();
     let weeks: Vec<i64> = (0..3).map(|_| next()).collect();
     let years: Vec<i64> = (0..3).map(|_| next()).collect();
-    let loads: Vec<i64> = (0..2).map(|_| next()).collect();
-    let therms: Vec<i64> = (0..2).map(|_| next()).collect();
+    let loads: Vec<i64> = (0..3).map(|_| next()).collect();
+    let therms: Vec<i64> = (0..3).map(|_| next()).collect();
     let mats: Vec<i64> = (0..nmat + 1).map(|_| next()).collect();
     let glasses: Vec<i64> = (0..2).map(|_| next()).collect();
     let frames: Vec<i64> = (0..2).map(|_| next()).collect();
@@ -575,6 +575,11 @@ pub fn random_abstract(rng: &mut Rng, size: usize, break_links: bool) -> Value {
             let area = 2500 * rng.range(4, 80);
             walls.push(json!({"id": wid, "space": brk(rng, s), "cons": brkp(rng, &wcs[..nwc]), "next": nextsp,
                 "bounds": b, "tilt": *rng.pick(&tilts), "orient": *rng.pick(&orients), "area": area}));
+            // now and then a wall that is all window (a curtain wall, a skylight the size of its roof element)
+            if rng.chance(1, 10) {
+                windows.push(json!({"id": next(), "wall": brk(rng, wid), "cons": brkp(rng, &vcs[..nvc]), "area": area, "sb": 0}));
+                continue;
+            }
             let nwin = rng.below(5);
             let mut left = (area * 3) / 4;
             for _ in 0..nwin {
@@ -623,7 +628,7 @@ pub fn random_abstract(rng: &mut Rng, size: usize, break_links: bool) -> Value {
                  "gvent": if rng.chance(1, 2) { 10000 * rng.range(10, 200) } else { -1 }, "zone": *rng.pick(&zones)},
         "spaces": sps.iter().map(|&s| json!({"id": s, "inside": !rng.chance(1, 4), "kind": *rng.pick(&["C", "C", "U", "N"]),
             "mult": *rng.pick(&[100i64, 100, 200, 300]), "h": 1000 * rng.range(22, 40),
-            "loads": brko(rng, &loads[..1]), "therm": brko(rng, &therms[..1])})).collect::<Vec<_>>(),
+            "loads": brko(rng, &loads[..2]), "therm": brko(rng, &therms[..2])})).collect::<Vec<_>>(),
         "walls": walls, "windows": windows, "tbs": tbs,
         "wallcons": wcs.iter().map(|&c| { let n = rng.below(3) + 1; json!({"id": c,
             "mats": (0..n).map(|_| brkp(rng, &mats[..nmat])).collect::<Vec<_>>(),
